@@ -6,13 +6,35 @@ import (
 	"strings"
 
 	"verif/fw"
+	"verif/gen"
 )
 
 // ---- C07: literal values survive transpilation ------------------------------
 
+// litCtx maps a literal case (by category prefix "<position>/") to its program template; see litContexts.
 type litCase struct {
 	text string // literal source text (with its delimiters)
 	cat  string // category for class keys
+}
+
+func (lc litCase) program() string {
+	for _, c := range litContexts {
+		if strings.HasPrefix(lc.cat, c.name+"/") {
+			return strings.ReplaceAll(c.tmpl, "%s", lc.text)
+		}
+	}
+	return "v = " + lc.text
+}
+
+// literal positions other than the right-hand side of an assignment: property key of an object literal (a printer may
+// choose to quote or unquote keys), computed member key, array element, call argument, operand. Each template's
+// completion value is the literal's value as that position sees it (keys: the property name).
+var litContexts = []struct{ name, tmpl string }{
+	{"object-key", "v = {%s: 1}\nObject.keys(v)[0]"},
+	{"member-key", "v = {}\nv[%s] = 1\nObject.keys(v)[0]"},
+	{"array-element", "v = [0, %s, 0][1]"},
+	{"call-argument", "v = (function (a, b) { return b })(0, %s)"},
+	{"operand", "v = [%s + \"\", typeof %s][0]"},
 }
 
 // checkLiterals: one batch. Each literal is compiled inside `v = <lit>` (compact and pretty); the source
@@ -25,7 +47,7 @@ func checkLiterals(t *fw.T, lits []litCase, label string) {
 	}
 	var jobs []job
 	for _, lc := range lits {
-		src := "v = " + lc.text
+		src := lc.program()
 		var po ParseOut
 		var c, p string
 		ok := t.Guard("parse/compile literal", func() map[string]any {
@@ -52,7 +74,7 @@ func checkLiterals(t *fw.T, lits []litCase, label string) {
 	}
 	items := make([]string, 0, 3*len(jobs))
 	for _, j := range jobs {
-		items = append(items, "v = "+j.lc.text, j.compact, j.pretty) // each evaluated as a program: completion value of `v = <literal>`
+		items = append(items, j.lc.program(), j.compact, j.pretty) // each evaluated as a program: completion value of `v = <literal>`
 	}
 	vals, err := engine(t).Lits(items)
 	if err != nil {
@@ -291,6 +313,34 @@ func runC07Backticks(t *fw.T) {
 	checkLiterals(t, lits, "backtick")
 }
 
+// numberLikeStrings are string literals whose content looks like a number in non-canonical form: as property keys they
+// must stay strings ("01" is not the key 1).
+var numberLikeStrings = []string{`"01"`, `"007"`, `"1e3"`, `"0x10"`, `"0b11"`, `"0o7"`, `"1.0"`, `"1."`, `".5"`, `"-1"`, `"+1"`, `" 1"`, `"1 "`, `""`, `"1_0"`, `"0"`, `"1"`, `"42"`, `"4294967295"`,
+	`"9007199254740993"`, `"1e21"`, `"Infinity"`, `"NaN"`, `"-0"`, `"a"`, `"a b"`, `"a-b"`, `"if"`, `"let"`, `"function"`, `"null"`, `"true"`, `"$"`, `"_x"`, `"x1"`, `"1x"`, `"é"`, `"__proto__"`, `"constructor"`, `"\\x41"`, `"\\u0031"`, `'single'`, `'it\\'s'`, `'"'`}
+
+func runC07Contexts(t *fw.T) {
+	r := t.Rand()
+	var base []litCase
+	for i := 0; i < 6; i++ {
+		base = append(base, litCase{numberLikeStrings[r.IntN(len(numberLikeStrings))], "number-like or special string"})
+	}
+	for i := 0; i < 4; i++ {
+		q := []byte{'"', '\''}[r.IntN(2)]
+		base = append(base, litCase{string(q) + gen.RandStrBody(r, q) + string(q), "random string"})
+	}
+	for i := 0; i < 6; i++ {
+		base = append(base, litCase{gen.RandNum(r), "number"})
+	}
+	var lits []litCase
+	for _, b := range base {
+		for _, c := range litContexts {
+			lits = append(lits, litCase{b.text, c.name + "/" + b.cat})
+		}
+		t.Distinct("ctx " + b.text)
+	}
+	checkLiterals(t, lits, "context")
+}
+
 func digits(r *rand.Rand, n int, set string) string {
 	b := make([]byte, n)
 	for i := range b {
@@ -333,7 +383,7 @@ func runC07Numbers(t *fw.T) {
 func init() {
 	fw.Register(&fw.Property{
 		ID: "C07", Level: "translation_validation",
-		Rule: "each literal text t is compiled inside `v = t` (compact and pretty) by the real lexer/parser/printer; node/V8 evaluates t and both emitted expressions; string values are compared as UTF-16 code-unit sequences, numbers as IEEE-754 bit patterns. Literals xjs rejects or V8 rejects in the source are outside the premise (counted). Exhaustive: every \\xHH, every \\uHHHH, every ASCII byte raw and after a backslash (both quote styles, alone and embedded); \\u{...} at all boundaries + 4096 sampled code points in 1-6 digit forms; line continuations, legacy octal, surrogates; random concatenations; backtick strings; all numeric shapes. programs = literals judged; distinct = distinct literal texts.",
+		Rule: "each literal text t is compiled inside `v = t` (compact and pretty) by the real lexer/parser/printer; node/V8 evaluates t and both emitted expressions; string values are compared as UTF-16 code-unit sequences, numbers as IEEE-754 bit patterns. Literals xjs rejects or V8 rejects in the source are outside the premise (counted). A literal-positions stratum places string and number literals as object keys, computed keys, array elements, call arguments and operands (the completion value is the value that position sees; for keys the property name). Exhaustive: every \\xHH, every \\uHHHH, every ASCII byte raw and after a backslash (both quote styles, alone and embedded); \\u{...} at all boundaries + 4096 sampled code points in 1-6 digit forms; line continuations, legacy octal, surrogates; random concatenations; backtick strings; all numeric shapes. programs = literals judged; distinct = distinct literal texts.",
 		Assumptions: []string{
 			"V8 (node 20) is the reference semantics of literal values",
 			"source texts are valid UTF-8",
@@ -348,6 +398,7 @@ func init() {
 			{Name: "random-strings", Quick: 1600, Thorough: 16000, Run: runC07Random},
 			{Name: "backtick-strings", Quick: 500, Thorough: 5000, Run: runC07Backticks},
 			{Name: "numbers", Quick: 200, Thorough: 2000, Run: runC07Numbers},
+			{Name: "literal-positions", Quick: 300, Thorough: 3000, Run: runC07Contexts},
 		},
 	})
 }
